@@ -205,6 +205,8 @@ func C02(ctx *core.Ctx) {
 	ctx.Rule("C02.R9", "typedef resolution across includes: the aliased type of a typedef is resolved by the program whose index the alias was found in", 1)
 	typedefResolverAgreement(ctx, cc, "C02.R9")
 	scalarClassification(ctx, cc, "C02.R11")
+	ctx.Rule("C02.R12", "typedef/type resolution is not cached across programs: a generator map field that memoises what the current program resolves is dropped where the program is switched", 1)
+	generatorCaches(ctx, cc, "C02.R12")
 
 	var gpkg, ppkg *packages.Package
 	for _, p := range cc.V.Pkgs {
